@@ -194,4 +194,5 @@ def run(ctx):
                 hit += 1
         t1.suppressions.append({"rule": "TS-value", "function": fn_sig, "construct": construct, "reason": reason, "matched": hit})
     t1.notes.append("%d member functions of Value analysed; kinds %s" % (n, sorted(spec.kinds)))
-    return [t1, tx, rule_zero(ctx)]
+    from rules.common import rule_overload_pairs
+    return [t1, tx, rule_zero(ctx), rule_overload_pairs(ctx, m)]
